@@ -52,7 +52,7 @@ def h_amplitudes(ctx, n_full, heralds, n_loss, kmax, explicit):
     h_in = {hi: p for (p, hi, ho) in heralds}
     h_out = {ho: p for (p, hi, ho) in heralds}
     hp = sum(h_in.values())
-    k = ctx.choice("photons", list(range(0, kmax - hp + 1)))
+    k = ctx.choice("photons", [k for k in range(0, kmax - hp + 1) if n_in > 0 or k == 0])
     ins = ref.fock_states(n_in, k)
     if explicit == "two-inputs" and len(ins) >= 2:
         i1 = ctx.choice("in1", list(range(len(ins))))
@@ -70,7 +70,11 @@ def h_amplitudes(ctx, n_full, heralds, n_loss, kmax, explicit):
     else:
         outputs = None
     sim = lw.emulator.Simulator(c)
-    res = sim.simulate(inputs, outputs)
+    try:
+        res = sim.simulate(inputs, outputs)
+    except Exception as e:  # noqa: BLE001
+        ctx.fail("well-formed-states-are-computed-not-rejected", f"{type(e).__name__}: {e}"[:120])
+        return
     U = c.U_full
     ctx.check(U.shape[0] == n_full + n_loss, "U_full-size")
     in_list = inputs if isinstance(inputs, list) else [inputs]
@@ -90,7 +94,8 @@ def amp_cases(tier):
     out = []
     kmax = 3 if tier == "quick" else 4
     herald_sets = {
-        2: [[], [(0, 0, 0)], [(1, 1, 0)], [(1, 0, 1)], [(2, 1, 1)]],
+        # the last two: every mode heralded (no user modes, the only state is the empty one)
+        2: [[], [(0, 0, 0)], [(1, 1, 0)], [(1, 0, 1)], [(2, 1, 1)], [(1, 0, 1), (0, 1, 0)], [(1, 0, 0), (1, 1, 1)]],
         3: [[], [(1, 0, 0)], [(0, 2, 0)], [(1, 1, 2)], [(2, 0, 1)], [(1, 0, 2), (1, 2, 0)], [(0, 1, 1), (1, 0, 2)]],
         4: [[], [(1, 3, 0)], [(1, 0, 0), (0, 3, 2)], [(1, 1, 2), (1, 2, 3)], [(2, 3, 1)]],
         5: [[(1, 0, 4), (1, 2, 1)], [(0, 4, 0), (1, 1, 1)]],
@@ -99,7 +104,7 @@ def amp_cases(tier):
     for n_full in sizes:
         for hs in herald_sets[n_full]:
             n_in = n_full - len(hs)
-            if n_in < 1 or n_in > (3 if tier == "quick" else 4):
+            if n_in > (3 if tier == "quick" else 4):
                 continue
             for n_loss in (0, 1, 2):
                 if tier == "quick" and n_full >= 4 and n_loss == 2:
